@@ -58,6 +58,7 @@ type Program struct {
 	callersHO     map[*ssa.Function][]ssa.CallInstruction // calls through function-typed parameters (depends on pins)
 	dynCalls      []ssa.CallInstruction                   // calls of function values not resolved in the first phase
 	noParamCallee bool
+	boundSites    map[*ssa.Function][]*ssa.MakeClosure
 	opaqueCalls   bool
 	pinDepth      int
 	inlineBusy    map[*ssa.Function]bool
@@ -384,7 +385,7 @@ func (P *Program) Callers(fn *ssa.Function) []ssa.CallInstruction {
 		P.callers = map[*ssa.Function][]ssa.CallInstruction{}
 		P.noParamCallee = true
 		for _, f := range P.ModFuncs {
-			if f.Synthetic != "" && f.Synthetic != "range-over-func yield" && !strings.HasPrefix(f.Synthetic, "instance of ") {
+			if f.Synthetic != "" && f.Synthetic != "range-over-func yield" && !strings.HasPrefix(f.Synthetic, "instance of ") && !isBoundWrapper(f) {
 				continue // wrappers / thunks synthesised by go/ssa are not source call sites
 			}
 			allInstrs(f, func(b *ssa.BasicBlock, ins ssa.Instruction) {
